@@ -301,6 +301,20 @@ func checkLadders(c *Ctx, r *Rec, cr *collRoles, fd *ast.FuncDecl, rank bool, ru
 			}
 			continue
 		}
+		// a path that was taken on the answer of something the interpreter does not follow (a test
+		// handed in as a function value: rankMissing(first, second, ref.Value.IsNil)) says nothing
+		opaqueTest := false
+		for _, a := range p.Cube {
+			for sname := range a.C {
+				if strings.HasPrefix(sname, "pred:?") || strings.HasPrefix(sname, "val:?") {
+					opaqueTest = true
+				}
+			}
+		}
+		if opaqueTest {
+			unknownPaths++
+			continue
+		}
 		// a delegated result: both operands must be known defined and non-nil where that was tested
 		if possible(p.Cube, fNotOf(validF)) || possible(p.Cube, fNotOf(validS)) {
 			viol = append(viol, where+" a delegate is called although an operand may be undefined (invalid reflect.Value)")
